@@ -899,6 +899,47 @@ def check_build_time_division(model, rep):
         raise AnalysisError(f'R07.12: only {n} build-time divisions by lengths found (reshape expected)')
 
 
+def check_contraction_shapes(model, rep, oracle):
+    """R07.13: on which axis a contraction contracts.  dot, matmul and vdot are interpreted over labelled shapes (sa/shapes.py: NumPy
+    broadcasting, subscripts with newaxis/Ellipsis, reductions, transposes to the end) for every operand-dimension case of the
+    oracle; the reduced axis must carry the contracted length K of BOTH operands (a product that aligns K with another length is
+    an error) and the result must have the shape NumPy documents."""
+    from sa.shapes import ShapeExec, Arr, ShapeError, Raised
+    m, regs = registrations(model)
+    by = {fn.name: fn for fn, _ in regs}
+    ncases = 0
+    for name, cases in oracle['contraction_shapes'].items():
+        fn = by.get(name)
+        if fn is None:
+            raise AnalysisError(f'numpy.{name} implementation not found')
+        pos = [a.arg for a in fn.args.args]
+        bad = None
+        for a, b, want in cases:
+            ncases += 1
+            try:
+                r = ShapeExec({pos[0]: Arr(a), pos[1]: Arr(b)}).call(fn)
+            except Raised:
+                bad = (a, b, 'the operands are rejected')
+            except ShapeError as e:
+                bad = (a, b, str(e))
+            except Unsupported as e:
+                raise AnalysisError(f'numpy.{name}: the shape interpreter does not know a construct: {e}')
+            else:
+                contracted = [l for l in a if l in b and l not in want]
+                if sorted(r.reduced) != sorted(contracted):
+                    bad = (a, b, f'the axes summed away carry the lengths {list(r.reduced)}, NumPy contracts {contracted}')
+                elif r.shape != want:
+                    bad = (a, b, f'the result has shape ({", ".join(r.shape)}), NumPy gives ({", ".join(want)})')
+            if bad:
+                break
+        fmt = lambda sh: '(' + ', '.join(sh) + ')'
+        rep.ob('R07.13', f'function:__implementations__.{name}', f'{m.relpath}:{fn.lineno}', bad is None,
+               f'numpy.{name}: for all {len(cases)} operand-dimension cases the contraction runs over the contracted length of both operands and the result has NumPy\'s shape (labelled-shape interpretation)' if bad is None else
+               f'numpy.{name} of operands with shapes {fmt(bad[0])} and {fmt(bad[1])}: {bad[2]}', statement=f'contraction-axis {name}')
+    if ncases < 15:
+        raise AnalysisError('R07.13: oracle cases missing')
+
+
 def _ord(fn, node):
     calls = [c for c in ast.walk(fn) if isinstance(c, ast.Call) and src(c.func) == '_Wrapper']
     calls.sort(key=lambda c: (c.lineno, c.col_offset))
@@ -937,6 +978,7 @@ def run(model, rep, tier):
     rep.rule('R07.10', 'index arrays of one subscript are handled jointly, as NumPy does')
     rep.rule('R07.11', 'boolean operands: absolute is the identity, contractions stay boolean, a boolean subscript is a mask')
     rep.rule('R07.12', 'build-time divisions by axis lengths are preceded by a test that excludes zero (empty arrays)')
+    rep.rule('R07.13', 'dot/matmul/vdot contract the axis that carries the contracted length of both operands and return NumPy\'s shape (labelled-shape interpretation)')
     rep.rule('R07.8', 'every _Transpose is constructed from normalised, permutation-checked axes')
     rep.trusted_base.append('oracles/numpy_api.json (NumPy documented semantics)')
     check_chains(model, rep, oracle)
@@ -949,6 +991,7 @@ def run(model, rep, tier):
     check_getitem(model, rep)
     check_boolean_cases(model, rep, oracle)
     check_build_time_division(model, rep)
+    check_contraction_shapes(model, rep, oracle)
     check_namespace_table(model, rep, oracle)
     rep.require('R07.1', 55)
     rep.require('R07.2', 40)
